@@ -60,7 +60,7 @@ Proof.
   destruct (read_addr pt) as [ab payload| |]; try (intros H; inversion H; reflexivity).
   destruct (decode_addr ab) as [a|]; try (intros H; inversion H; reflexivity).
   destruct (dial ci a) as [i|stc] eqn:D.
-  - destruct fin; intros H [Hc|Hc]; inversion H; subst; try reflexivity; discriminate.
+  - destruct fin, (ci_target_reset ci); intros H [Hc|Hc]; inversion H; subst; try reflexivity; discriminate.
   - intros H [Hc|Hc]; inversion H; subst; exfalso; revert D; apply dial_status_codes; [left|right]; reflexivity.
 Qed.
 
@@ -159,7 +159,8 @@ Proof. intros H. unfold authenticate. apply Nat.ltb_lt in H. rewrite H. reflexiv
    followed by a payload, with a successful dial, produces exactly: Authenticated, the dial to that
    address, the payload (everything after the address header, including data coalesced into the
    first chunk) at the target, then the target's half-close, the target's bytes to the client,
-   and one Closed report with status OK and the byte counts of the wire *)
+   and one Closed report with the byte counts of the wire and status OK — or ERR_RELAY_TARGET when
+   the target ended with a reset *)
 Lemma handle_honest_relay_lemma e st ci st' id el salt a payload i :
   authenticate e st (ci_ip ci) (ci_bytes ci) = (st', Ok (AuthOk id el salt)) ->
   decode_stream e (e_key (snd el)) (ci_bytes ci) = (encode_addr a ++ payload, DEof) ->
@@ -167,7 +168,7 @@ Lemma handle_honest_relay_lemma e st ci st' id el salt a payload i :
   decode_addr (encode_addr a) = Some a ->
   dial ci a = inl i ->
   handle e st ci = (st', Ok [EAuth id; EDial a i; EToTarget payload; ETargetFin; EToClient (ci_target_out ci);
-                            EClosed st_ok (zlen (ci_bytes ci)) (zlen payload) (zlen (ci_target_out ci)); EClose AfterRelay]).
+                            EClosed (if ci_target_reset ci then st_relay_target else st_ok) (zlen (ci_bytes ci)) (zlen payload) (zlen (ci_target_out ci)); EClose AfterRelay]).
 Proof.
   intros A D Hd Da Dial. unfold handle. rewrite A. unfold after_auth. rewrite D.
   destruct atyp_distinct_lemma as (N1 & N2 & N3).
@@ -181,6 +182,7 @@ Inductive outcome_class :=
 | OBadAddress                  (* authenticated; the address header is missing, truncated or of an unknown type *)
 | ODialFailed (s : N)          (* authenticated, address read; the policy or the connect failed with this status *)
 | ORelayBroken                 (* relaying started; a later chunk from the client failed authentication *)
+| OTargetBroke                 (* relayed; the upload ended cleanly, the target ended with a reset *)
 | OCompleted.                  (* relayed to the end of both streams *)
 Definition classify (e : env) (st : astate) (ci : conn_in) : option outcome_class :=
   match snd (authenticate e st (ci_ip ci) (ci_bytes ci)) with
@@ -195,7 +197,10 @@ Definition classify (e : env) (st : astate) (ci : conn_in) : option outcome_clas
           | None => Some OBadAddress
           | Some a => match dial ci a with
                       | inr s => Some (ODialFailed s)
-                      | inl _ => match fin with DAuthFail => Some ORelayBroken | _ => Some OCompleted end
+                      | inl _ => match fin with
+                                 | DAuthFail => Some ORelayBroken
+                                 | _ => Some (if ci_target_reset ci then OTargetBroke else OCompleted)
+                                 end
                       end
           end
       end
@@ -203,7 +208,7 @@ Definition classify (e : env) (st : astate) (ci : conn_in) : option outcome_clas
 Definition status_of_class (c : outcome_class) : N :=
   match c with
   | OAuthFailed s => s | OBadAddress => st_read_address | ODialFailed s => s
-  | ORelayBroken => st_relay_client | OCompleted => st_ok
+  | ORelayBroken => st_relay_client | OTargetBroke => st_relay_target | OCompleted => st_ok
   end.
 
 Ltac closed_shape :=
@@ -222,7 +227,7 @@ Proof.
     destruct (read_addr p) as [ab payload| |].
     + destruct (decode_addr ab) as [a|].
       * destruct (dial ci a) as [i|s].
-        -- destruct f; intros H; injection H as <- <-;
+        -- destruct f, (ci_target_reset ci); intros H; injection H as <- <-;
              (eexists; split; [reflexivity|]; cbn [status_of_class]; closed_shape).
         -- intros H; injection H as <- <-. eexists; split; [reflexivity|]. cbn [status_of_class]. closed_shape.
       * intros H; injection H as <- <-. eexists; split; [reflexivity|]. cbn [status_of_class]. closed_shape.
